@@ -229,6 +229,8 @@ pub enum Cmd {
     Singles { pc0: u16, stop_on_z: bool, max: u32 },
     /// `set_freq(n8 / 8 MHz)` after the slice duration was set: reply = the budget it computed
     SF(u32),
+    /// `set_freq(f32::from_bits(bits))`: reply = the budget it computed
+    SFB(u32),
     /// register-pair accessor round trip: set pair `which` (0 BC 1 DE 2 HL 3 IX 4 IY 5 AF) to `v`
     SetPair(u8, u16),
     /// the host stalls for that many milliseconds (the model has no clock: a no-op there)
@@ -271,6 +273,7 @@ impl Cmd {
             Cmd::SD(d) => format!("SD {:X}", d),
             Cmd::SetPair(w, v) => format!("SP16 {} {:04X}", w, v),
             Cmd::SF(n8) => format!("SF {:X}", n8),
+            Cmd::SFB(b) => format!("SFB {:X}", b),
             Cmd::Nap(ms) => format!("NAP {:X}", ms),
             Cmd::SWR { which, blk, nblk, fmask } => format!("SWR {:X} {:X} {:X} {:02X}", which, blk, nblk, fmask),
             Cmd::Sync | Cmd::SetPC(_) | Cmd::Singles { .. } | Cmd::WBPC(..) | Cmd::HostReg(..) => "<runtime>".into(),
@@ -710,10 +713,39 @@ impl Imp {
                 let ck = self.cpu.bus.verif_mem().iter().fold(init, |h, b| mix(h, *b as u64));
                 format!("H {:016X} {:016X} {:016X} {:016X} - {:016X}", mix(h1, ck), hf, h3, h4, h5)
             }
+            Cmd::SFB(b) => {
+                self.cpu.set_freq(f32::from_bits(*b));
+                format!("V {}", self.cpu.verif_ctl().slice_max_cycles)
+            }
             Cmd::SF(n8) => {
                 self.cpu.set_freq(*n8 as f32 / 8.0);
                 format!("V {}", self.cpu.verif_ctl().slice_max_cycles)
             }
         }
     }
+}
+
+
+/// f x 1000 x d for the value the single `bits` denotes, in exact integer arithmetic: (whole part, is the fraction
+/// at least 0.05 away from both neighbouring integers?).  None: not a positive normal number or too large.
+pub fn budget_exact(bits: u32, d: u32) -> Option<(u64, bool)> {
+    let e = ((bits >> 23) & 0xFF) as i32;
+    if bits >> 31 == 1 || e == 0 || e == 255 {
+        return None;
+    }
+    let m = (1u128 << 23) + (bits & 0x7F_FFFF) as u128;
+    let n = m * 1000 * d as u128;
+    if e >= 150 {
+        if e - 150 > 20 {
+            return None;
+        }
+        return Some(((n << (e - 150)) as u64, true));
+    }
+    let k = (150 - e) as u32;
+    if k > 100 {
+        return None;
+    }
+    let den = 1u128 << k;
+    let (q, r) = (n / den, n % den);
+    Some((q as u64, den <= 20 * r && 20 * r <= 19 * den))
 }
